@@ -202,3 +202,24 @@ def self_rooted(fn, place, ex=None, at=None):
         return False
     e = ex.local(l, at)
     return e == ("arg", 1, fn.local_name(1)) or (e[0] == "arg" and e[1] == 1)
+
+
+def lazy_ctor(facts):
+    """the function of `impl ZipFile` that builds the decoding reader lazily: it calls make_reader and stores the result in self.reader.
+    That is the private helper `get_reader` on the pinned tree; when a refactoring inlined it into its only caller, it is
+    `<ZipFile as Read>::read` itself.  (read_zipfile_from_stream builds its reader eagerly and is not meant here.)"""
+    from .mir import AnchorLost
+    cands = []
+    for f in facts.fns:
+        if not (f.impl_self and re.search(r"^read::ZipFile<", f.impl_self)):
+            continue
+        if not any((t.get("callee") or "").endswith("read::make_reader") for _, t in f.calls()):
+            continue
+        if any(s_["k"] == "assign" and [q.get("n") for q in s_["place"]["p"] if q["k"] == "field"][-1:] == ["reader"] for _, _, s_ in f.stmts()):
+            cands.append(f)
+    named = [f for f in cands if f.name == "get_reader"]
+    if named:
+        return named[0]
+    if len(cands) == 1:
+        return cands[0]
+    raise AnchorLost("the lazy constructor of ZipFile's decoding reader (get_reader, or Read::read with it inlined): %d candidates" % len(cands))
